@@ -45,6 +45,24 @@ func (e *Engine) schedSleep(st *State, fr *Frame, d *Term, pos token.Pos) []exit
 }
 
 func init() {
+	// sync.Mutex: a held flag per mutex object (one thread runs at a time under the canonical schedule)
+	stubs["(*sync.Mutex).Lock"] = func(e *Engine, st *State, fr *Frame, fn *ssa.Function, args []Value, pos token.Pos) []exit {
+		p := args[0].(PtrV)
+		if st.mutexes[p.Obj] {
+			panic(unsupported("sync.Mutex.Lock on a mutex that is already held (would block)"))
+		}
+		st.mutexes[p.Obj] = true
+		return retExit(st, nil)
+	}
+	stubs["(*sync.Mutex).Unlock"] = func(e *Engine, st *State, fr *Frame, fn *ssa.Function, args []Value, pos token.Pos) []exit {
+		p := args[0].(PtrV)
+		if !st.mutexes[p.Obj] {
+			e.reportPanic(st, e.tc.True, "sync: unlock of unlocked mutex", pos)
+			return []exit{{st: st, kind: exitPanic, pmsg: "sync: unlock of unlocked mutex"}}
+		}
+		delete(st.mutexes, p.Obj)
+		return retExit(st, nil)
+	}
 	// internal/bytealg: assembly routines, given their documented semantics on concrete or symbolic bytes
 	indexByte := func(e *Engine, b []*Term, c *Term) *Term {
 		// first index i with b[i] == c, else -1
